@@ -39,6 +39,7 @@ type c05Case struct {
 	ClientChunks []int
 	CovertChunks []int
 	CovertEnd    string // eof | stall
+	ClientEnd    string // "" = eof | stall (only used with a fault that ends a direction by itself)
 	Faults       []c05Fault
 }
 
@@ -244,12 +245,19 @@ func c05RunHalfPipes(rec *kit.Rec, cs c05Case) {
 		return
 	}
 	label := fmt.Sprintf("client%v covert%v end=%s faults=%v", cs.ClientChunks, cs.CovertChunks, cs.CovertEnd, cs.Faults)
+	if cs.ClientEnd == "stall" {
+		label += " client-end=stall"
+	}
 	rec.CaseCheap(label)
 	stationAddr := kit.TCPAddr("192.0.2.10", 443)
 	clientAddr := kit.TCPAddr("203.0.113.77", 50123)
 	covertAddr := kit.TCPAddr("198.51.100.9", 80)
 	stationOut := kit.TCPAddr("192.0.2.10", 40001)
-	client, clientStream := c05Build("client", 0xC1, cs.ClientChunks, "eof", cs.Faults, stationAddr, clientAddr)
+	clientEnd := "eof"
+	if cs.ClientEnd == "stall" {
+		clientEnd = "stall"
+	}
+	client, clientStream := c05Build("client", 0xC1, cs.ClientChunks, clientEnd, cs.Faults, stationAddr, clientAddr)
 	covert, covertStream := c05Build("covert", 0xC0, cs.CovertChunks, cs.CovertEnd, cs.Faults, stationOut, covertAddr)
 
 	var logbuf bytes.Buffer
@@ -406,6 +414,15 @@ func TestVerifC05HalfPipe(t *testing.T) {
 		}
 	}
 	c05RunHalfPipes(rec, c05Case{ClientChunks: chunkings[2], CovertChunks: chunkings[3], CovertEnd: "stall", Faults: []c05Fault{{"client", "close-slow-long", 2500}, {"covert", "close-slow-long", 2500}}})
+	// both peers fall silent and the only thing that ends a direction is a SetDeadline that fails while the deadlines are
+	// first armed (call 0 or 1 on either conn): the relay must tear down at once, not wait for a deadline it never set
+	for _, side := range []string{"client", "covert"} {
+		for _, pos := range []int{0, 1} {
+			for _, ch := range [][]int{{}, {8}} {
+				c05RunHalfPipes(rec, c05Case{ClientChunks: ch, CovertChunks: ch, CovertEnd: "stall", ClientEnd: "stall", Faults: []c05Fault{{side, "dl-err", pos}}})
+			}
+		}
+	}
 	// pairs
 	nPairs := kit.Tier(3000, 100000)
 	if nPairs >= len(u)*len(u) {
@@ -444,7 +461,7 @@ func TestVerifC05Proxy(t *testing.T) {
 	defer rec.Close()
 	rng := kit.Rand("c05proxy")
 	n := kit.Tier(150, 3000)
-	modes := []string{"client-finishes-first", "covert-finishes-first", "reply-then-rst", "close-immediately", "client-rst", "dial-refused", "client-rst-slow-covert"}
+	modes := []string{"client-finishes-first", "covert-finishes-first", "reply-then-rst", "close-immediately", "client-rst", "dial-refused", "client-rst-slow-covert", "client-finishes-first-covert-lingers"}
 	for i := 0; i < n; i++ {
 		mode := modes[i%len(modes)]
 		upN := []int{0, 1, 8, 4096, 70000}[rng.Intn(5)]
@@ -466,6 +483,7 @@ func TestVerifC05Proxy(t *testing.T) {
 		down := c05Data(0xD0, downN)
 		var covertGot []byte
 		covertDone := make(chan struct{})
+		covertRelease := make(chan struct{})
 		go func() {
 			defer close(covertDone)
 			c, err := ln.Accept()
@@ -495,6 +513,14 @@ func TestVerifC05Proxy(t *testing.T) {
 				b, _ := io.ReadAll(c)
 				covertGot = b
 				return
+			case "client-finishes-first-covert-lingers":
+				// a keep-alive covert: it sees the end of the client's stream and keeps its side open; the station must
+				// tear the tunnel down by itself
+				c.Write(down)
+				b, _ := io.ReadAll(c)
+				covertGot = b
+				<-covertRelease
+				return
 			default:
 				c.Write(down)
 				b, _ := io.ReadAll(c)
@@ -519,7 +545,7 @@ func TestVerifC05Proxy(t *testing.T) {
 		switch mode {
 		case "client-rst", "client-rst-slow-covert":
 			segs = append(segs, kit.Seg{Err: kit.NetOpErr("read", kit.TCPAddr("192.0.2.10", 443), kit.TCPAddr("203.0.113.77", 50123), kit.SysErr("read", syscall.ECONNRESET))})
-		case "client-finishes-first":
+		case "client-finishes-first", "client-finishes-first-covert-lingers":
 			atEnd = kit.EndEOF
 		}
 		client := kit.NewScriptConn("client", kit.TCPAddr("192.0.2.10", 443), kit.TCPAddr("203.0.113.77", 50123), segs, atEnd)
@@ -539,9 +565,15 @@ func TestVerifC05Proxy(t *testing.T) {
 			closesDoneAtReturn = client.ClosesDone()
 		case <-time.After(60 * time.Second):
 			rec.Violation("teardown:proxy-did-not-return", "Proxy did not return after one side ended", map[string]interface{}{"case": label, "client_ops": opsTail(client)})
+			close(covertRelease)
 			client.Close()
 			ln.Close()
 			<-done
+		}
+		select {
+		case <-covertRelease:
+		default:
+			close(covertRelease)
 		}
 		ln.Close()
 		<-covertDone
